@@ -404,6 +404,7 @@ func evmcOne(tw *TraceWriter, scn int, src string, sc evmcScenario) {
 	// the block of the transaction under test
 	n.BeginBlock(BlockIn{DtMs: 5000, Proposer: 0})
 	ctx := n.Ctx()
+	ew.CapCalls = src == "rand"
 	codes := map[common.Address][]byte{}
 	var to common.Address
 	var data []byte
@@ -472,6 +473,9 @@ func evmcOne(tw *TraceWriter, scn int, src string, sc evmcScenario) {
 	gasLimit := sc.Setup.Gas
 	if gasLimit == 0 {
 		gasLimit = 30_000_000
+		if src == "rand" {
+			gasLimit = 39_000_000
+		}
 	}
 	msg, err := BuildEthMsg(S, EthTxOpts{Type: 0, Nonce: nonce, To: toPtr, Value: value, Gas: gasLimit, GasPrice: gp, Data: data,
 		ChainID: n.App.EvmKeeper.ChainID()})
@@ -496,6 +500,11 @@ func evmcOne(tw *TraceWriter, scn int, src string, sc evmcScenario) {
 	}
 	n.EndBlock()
 	n.Commit()
+	if src == "rand" && uint64(res.GasUsed)*10 >= gasLimit*9 {
+		// the specification does not model gas: a random tree that (nearly) exhausted the gas of the
+		// transaction is not judged
+		panic("gas budget of the transaction (nearly) exhausted")
+	}
 	fee := new(big.Int).Mul(gp, big.NewInt(res.GasUsed))
 	feeMax := new(big.Int).Mul(gp, new(big.Int).SetUint64(gasLimit))
 	operOf := M{"_": "-"}
